@@ -3,16 +3,18 @@
 // Unit `indexmaint`: what DmlExecutor::maintain_secondary_indexes does to ONE secondary index for an
 // INSERT, a DELETE and an UPDATE of a table row -- the three arms of its `match`, each checked as a
 // function of the variables it reads (R11), against an abstract view of the index tree:
-//   view: key -> (creator, deleter) of the entry stored under that key (the key of an index entry is
-//   the indexed column values followed by the row id; Btree::search_tuple / insert / update find an
-//   entry by the key bytes of the tuple they are given).
+//   view: key -> (creator, deleter, row id) of the entry stored under that key (the key of an index
+//   entry is the indexed column values; the row id is its payload; Btree::search_tuple / insert /
+//   update find an entry by the key bytes of the tuple they are given).
 //   C06 "every secondary index always agrees with its table": after the arm the index holds a live
-//   entry under the key of the row's NEW values and the entry under the key of its OLD values is
-//   retired by the writer, and no other entry changes.
+//   entry (creator not rolled back, no delete mark) under the key of the row's NEW values -- the
+//   row's own entry whenever the place was free, retired or left behind by a rolled-back
+//   transaction -- and the entry under the key of its OLD values is retired by the writer, and no
+//   other entry changes.
 //   C07: the UNIQUE probe reads these entries; an entry that stays live for a value no row holds
 //   makes it reject valid rows.  C03: the mark of a rolled-back deleter does not count.
-//@trusted [env] Btree::{search_tuple, get_tuple_at_unchecked, insert, update} at the contracts read off their bodies (insert fails on an existing key, update fails on a missing key, both find the entry by the key of the tuple they are given; units btsearch/btleftmost cover the search itself); TupleBuilder::build stamps the writer as creator and no deleter (Kani unit tuplelayout); Tuple::delete KEEPS an existing mark (Kani unit tuplelayout: tuple_delete), Tuple::clear_delete_mark removes it; Snapshot::is_transaction_aborted is membership in the aborted set
-//@trusted [sub] `index_btree.with_cell_at(pos, |bytes| { parse_for_snapshot(bytes, &snapshot).ok()??; Tuple::from_slice_unchecked(bytes).ok()? ... })` (a closure with `?` on Option inside a generic callback) becomes the env call `index_btree.visible_tuple_at(pos, &tuple_reader, &snapshot)`: the stored tuple if the snapshot may see it, else None (the visibility rule itself: units visibility / versionchain); the second `let mut index_btree = self.ctx.build_tree_mut(index_root)` of the UPDATE arm (a second handle on the same tree) is dropped
+//@trusted [env] Btree::{search_tuple, get_tuple_at_unchecked, insert, update, upsert, remove_tuple} at the contracts read off their bodies (insert fails on an existing key, update fails on a missing key, both find the entry by the key of the tuple they are given; units btsearch/btleftmost cover the search itself); TupleBuilder::build stamps the writer as creator and no deleter (Kani unit tuplelayout); Tuple::delete KEEPS an existing mark (Kani unit tuplelayout: tuple_delete), Tuple::clear_delete_mark removes it; Snapshot::is_transaction_aborted is membership in the aborted set
+//@trusted [sub] `index_btree.with_cell_at(pos, |bytes| { parse_for_snapshot(bytes, &snapshot).ok()??; Tuple::from_slice_unchecked(bytes).ok()? ... })` (a closure with `?` on Option inside a generic callback) becomes the env call `index_btree.visible_tuple_at(pos, &tuple_reader, &snapshot)`: the stored tuple if the snapshot may see it, else None (the visibility rule itself: units visibility / versionchain); the writer's own transaction is not in its snapshot's aborted set; the second `let mut index_btree = self.ctx.build_tree_mut(index_root)` of the UPDATE arm (a second handle on the same tree) is dropped; `x.xmax().is_some_and(|d| f(d))`, where it occurs, is rewritten to the equivalent `match` (Verus has no specification for Option::is_some_and)
 //@trusted [pre] the dropped prefix of the function: tid = self.ctx.tid(), snapshot = self.ctx.snapshot() (the writer's own), index_btree is the tree of `index`; the loop over the indexes and the "is this index affected" test in front of the arms are outside (see the known finding: that test compares value indexes with column indexes)
 use vstd::prelude::*;
 
@@ -38,11 +40,12 @@ pub struct IndexAssignments { _p: () }
 pub struct BtreePagePosition { pub page: u64, pub slot: u16 }
 pub enum SearchResult { Found(BtreePagePosition), NotFound(BtreePagePosition) }
 
-pub struct Entry { pub creator: u64, pub deleter: Option<u64> }
+pub struct Entry { pub creator: u64, pub deleter: Option<u64>, pub rid: u64 }
 
-// the key bytes of the index entry for a table row: indexed columns, then the row id
-pub uninterp spec fn entry_key(values: Seq<DataType>, index: &IndexHandle, row_id: u64) -> int;
+// the key bytes of the index entry for a table row: the indexed columns (the row id is the payload)
+pub uninterp spec fn entry_key(values: Seq<DataType>, index: &IndexHandle) -> int;
 pub uninterp spec fn row_key(index_row: Seq<DataType>) -> int;
+pub uninterp spec fn row_rid(index_row: Seq<DataType>) -> u64;
 
 #[verifier::external_body]
 pub struct Snapshot { _p: () }
@@ -54,6 +57,10 @@ impl Snapshot {
     pub fn is_transaction_aborted(&self, xid: TransactionId) -> (r: bool) ensures r == self.aborted().contains(xid) { unimplemented!() }
     #[verifier::external_body]
     pub fn xid(&self) -> (r: TransactionId) ensures r == self.me() { unimplemented!() }
+    pub uninterp spec fn committed_before(&self, x: u64) -> bool;
+    #[verifier::external_body]
+    pub fn is_committed_before_snapshot(&self, txid: TransactionId) -> (r: bool)
+        ensures r == self.committed_before(txid), r ==> !self.aborted().contains(txid) { unimplemented!() }
 }
 
 #[verifier::external_body]
@@ -62,26 +69,29 @@ impl Tuple {
     pub uninterp spec fn key(&self) -> int;
     pub uninterp spec fn creator(&self) -> u64;
     pub uninterp spec fn deleter(&self) -> Option<u64>;
-    pub open spec fn entry(&self) -> Entry { Entry { creator: self.creator(), deleter: self.deleter() } }
+    pub uninterp spec fn rid(&self) -> u64;
+    pub open spec fn entry(&self) -> Entry { Entry { creator: self.creator(), deleter: self.deleter(), rid: self.rid() } }
+    #[verifier::external_body]
+    pub fn xmin(&self) -> (r: TransactionId) ensures r == self.creator() { unimplemented!() }
     #[verifier::external_body]
     pub fn xmax(&self) -> (r: Option<TransactionId>) ensures r == self.deleter() { unimplemented!() }
     #[verifier::external_body]
     pub fn is_deleted(&self) -> (r: bool) ensures r == (self.deleter() is Some) { unimplemented!() }
     #[verifier::external_body]
     pub fn clear_delete_mark(&mut self) -> (r: RuntimeResult<()>)
-        ensures final(self).key() == old(self).key(), final(self).creator() == old(self).creator(),
+        ensures final(self).key() == old(self).key(), final(self).creator() == old(self).creator(), final(self).rid() == old(self).rid(),
             r is Ok ==> final(self).deleter() is None,
             r is Err ==> final(self).deleter() == old(self).deleter() { unimplemented!() }
     // Tuple::delete: an existing mark is KEPT
     #[verifier::external_body]
     pub fn delete(&mut self, xid: TransactionId) -> (r: RuntimeResult<()>)
-        ensures final(self).key() == old(self).key(), final(self).creator() == old(self).creator(),
+        ensures final(self).key() == old(self).key(), final(self).creator() == old(self).creator(), final(self).rid() == old(self).rid(),
             final(self).deleter() == (if old(self).deleter() is Some { old(self).deleter() } else { Some(xid) }) { unimplemented!() }
     // Tuple::add_version_with on an index entry: rewrites columns in place -- the key bytes change
     pub uninterp spec fn rekeyed(k: int, a: &IndexAssignments) -> int;
     #[verifier::external_body]
     pub fn add_version_with(&mut self, a: &IndexAssignments, xid: TransactionId, schema: &Schema) -> (r: RuntimeResult<()>)
-        ensures final(self).creator() == old(self).creator(), final(self).deleter() == old(self).deleter(),
+        ensures final(self).creator() == old(self).creator(), final(self).deleter() == old(self).deleter(), final(self).rid() == old(self).rid(),
             r is Ok ==> final(self).key() == Self::rekeyed(old(self).key(), a),
             r is Err ==> final(self).key() == old(self).key() { unimplemented!() }
 }
@@ -93,7 +103,7 @@ impl TupleBuilder {
     pub fn from_schema(schema: &Schema) -> TupleBuilder { unimplemented!() }
     #[verifier::external_body]
     pub fn build(&self, row: &Vec<DataType>, tid: TransactionId) -> (r: RuntimeResult<Tuple>)
-        ensures r matches Ok(t) ==> t.key() == row_key(row@) && t.creator() == tid && t.deleter() is None { unimplemented!() }
+        ensures r matches Ok(t) ==> t.key() == row_key(row@) && t.rid() == row_rid(row@) && t.creator() == tid && t.deleter() is None { unimplemented!() }
 }
 #[verifier::external_body]
 pub struct TupleReader { _p: () }
@@ -129,6 +139,16 @@ impl IndexTree {
     pub fn insert(&mut self, page_id: PageId, data: Tuple, schema: &Schema) -> (r: RuntimeResult<()>)
         ensures r is Ok ==> !old(self).view().contains_key(data.key()) && final(self).view() == old(self).view().insert(data.key(), data.entry()),
             r is Err ==> final(self).view() == old(self).view() { unimplemented!() }
+    // Btree::remove_tuple: physically removes the entry found under the tuple's key (error if missing)
+    #[verifier::external_body]
+    pub fn remove_tuple(&mut self, page_id: PageId, tuple: &Tuple, schema: &Schema) -> (r: RuntimeResult<()>)
+        ensures r is Ok ==> old(self).view().contains_key(tuple.key()) && final(self).view() == old(self).view().remove(tuple.key()),
+            r is Err ==> final(self).view() == old(self).view() { unimplemented!() }
+    // Btree::upsert: insert, or replace the entry found under the key
+    #[verifier::external_body]
+    pub fn upsert(&mut self, page_id: PageId, data: Tuple, schema: &Schema) -> (r: RuntimeResult<()>)
+        ensures r is Ok ==> final(self).view() == old(self).view().insert(data.key(), data.entry()),
+            r is Err ==> final(self).view() == old(self).view() { unimplemented!() }
     // Btree::update: "Returns an error if the key is not found"
     #[verifier::external_body]
     pub fn update(&mut self, page_id: PageId, data: Tuple, schema: &Schema) -> (r: RuntimeResult<()>)
@@ -153,6 +173,12 @@ pub open spec fn only(after: Map<int, Entry>, before: Map<int, Entry>, k: int) -
 pub open spec fn only2(after: Map<int, Entry>, before: Map<int, Entry>, k1: int, k2: int) -> bool {
     forall|j: int| j != k1 && j != k2 ==> (after.contains_key(j) == before.contains_key(j) && (before.contains_key(j) ==> #[trigger] after[j] == before[j]))
 }
+// an entry every later reader sees: its creator did not roll back and nobody marked it
+pub open spec fn live(snap: &Snapshot, e: Entry) -> bool { !snap.aborted().contains(e.creator) && e.deleter is None }
+// the place under a key is free for the row: no entry, a retired one, or one a rolled-back transaction left
+pub open spec fn free_place(snap: &Snapshot, m: Map<int, Entry>, k: int) -> bool {
+    !m.contains_key(k) || m[k].deleter is Some || snap.aborted().contains(m[k].creator)
+}
 // an entry the writer may retire: it sees it, and nobody but a rolled-back transaction marked it
 pub open spec fn retirable(snap: &Snapshot, m: Map<int, Entry>, k: int) -> bool {
     m.contains_key(k) && snap.sees(m[k]) && (m[k].deleter matches Some(d) ==> snap.aborted().contains(d))
@@ -161,46 +187,52 @@ pub open spec fn retirable(snap: &Snapshot, m: Map<int, Entry>, k: int) -> bool 
 impl DmlExecutor {
     #[verifier::external_body]
     pub fn build_index_entry(values: &Vec<DataType>, index: &IndexHandle, index_schema: &Schema, row_id: RowId) -> (r: RuntimeResult<Vec<DataType>>)
-        ensures r matches Ok(row) ==> row_key(row@) == entry_key(values@, index, row_id) { unimplemented!() }
+        ensures r matches Ok(row) ==> row_key(row@) == entry_key(values@, index) && row_rid(row@) == row_id { unimplemented!() }
     #[verifier::external_body]
     pub fn build_index_assignments(&self, old_values: &Vec<DataType>, assignments: &Assignments, index: &IndexHandle, index_schema: &Schema) -> (r: RuntimeResult<IndexAssignments>) { unimplemented!() }
 
 //@fn crates/axmos-db/src/runtime/dml.rs | impl DmlExecutor | maintain_secondary_indexes
 //@ arm /\(None, Some\(values\), None\) => \{/ => fn index_insert_arm(&self, values: &Vec<DataType>, index: &IndexHandle, index_schema: &Schema, index_root: PageId, row_id: RowId, tid: TransactionId, snapshot: &Snapshot, index_btree: &mut IndexTree) -> RuntimeResult<()>
 //@ arm-tail Ok(())
+//@ sub? /(\w+)\s*\.xmax\(\)\s*\.is_some_and\(\|(\w+)\|\s*([\w.]+\(\w+\))\)/ => (match \1.xmax() { Some(\2) => \3, None => false })
 //@ requires
 //@   tid == self.ctx.writer(),
+//@   !snapshot.aborted().contains(tid),
 //@ ensures
-//@   [C06,C07:index.insert_leaves_a_live_entry_under_the_row_key] r is Ok ==> final(index_btree).view().contains_key(entry_key(values@, index, row_id)) && final(index_btree).view()[entry_key(values@, index, row_id)].deleter is None,
-//@   [C06:index.insert_touches_no_other_entry] only(final(index_btree).view(), old(index_btree).view(), entry_key(values@, index, row_id)),
-//@   [C06,C03:index.insert_new_entry_is_the_writers] r is Ok && !old(index_btree).view().contains_key(entry_key(values@, index, row_id)) ==> final(index_btree).view()[entry_key(values@, index, row_id)].creator == tid,
+//@   [C06,C07,C03:index.insert_leaves_a_live_entry_under_the_row_key] r is Ok ==> final(index_btree).view().contains_key(entry_key(values@, index)) && live(snapshot, final(index_btree).view()[entry_key(values@, index)]),
+//@   [C06:index.insert_touches_no_other_entry] only(final(index_btree).view(), old(index_btree).view(), entry_key(values@, index)),
+//@   [C06,C07,C03:index.insert_takes_a_free_place_for_the_row] r is Ok && free_place(snapshot, old(index_btree).view(), entry_key(values@, index)) ==> final(index_btree).view()[entry_key(values@, index)].creator == tid && final(index_btree).view()[entry_key(values@, index)].rid == row_id,
+//@   [C06:index.insert_keeps_a_live_entry] r is Ok && !free_place(snapshot, old(index_btree).view(), entry_key(values@, index)) ==> final(index_btree).view() == old(index_btree).view(),
 //@end
 
 //@fn crates/axmos-db/src/runtime/dml.rs | impl DmlExecutor | maintain_secondary_indexes
 //@ arm /\(Some\(values\), None, None\) => \{/ => fn index_delete_arm(&self, values: &Vec<DataType>, index: &IndexHandle, index_schema: &Schema, index_root: PageId, row_id: RowId, tid: TransactionId, snapshot: &Snapshot, index_btree: &mut IndexTree) -> RuntimeResult<()>
 //@ arm-tail Ok(())
+//@ sub? /(\w+)\s*\.xmax\(\)\s*\.is_some_and\(\|(\w+)\|\s*([\w.]+\(\w+\))\)/ => (match \1.xmax() { Some(\2) => \3, None => false })
 //@ sub /index_btree\.with_cell_at\((\w+), \|bytes\| \{\s*tuple_reader\.parse_for_snapshot\(bytes, &snapshot\)\.ok\(\)\?\?;\s*let tuple = Tuple::from_slice_unchecked\(bytes\)\.ok\(\)\?;\s*Some\(tuple\)\s*\}\)/ => index_btree.visible_tuple_at(\1, &tuple_reader, &snapshot)
 //@ requires
 //@   tid == self.ctx.writer(),
 //@ ensures
-//@   [C06,C07,C03:index.delete_retires_the_entry_for_the_writer] r is Ok && retirable(snapshot, old(index_btree).view(), entry_key(values@, index, row_id)) ==> final(index_btree).view().contains_key(entry_key(values@, index, row_id)) && final(index_btree).view()[entry_key(values@, index, row_id)].deleter == Some(tid),
-//@   [C06:index.delete_keeps_the_creator] old(index_btree).view().contains_key(entry_key(values@, index, row_id)) ==> final(index_btree).view().contains_key(entry_key(values@, index, row_id)) && final(index_btree).view()[entry_key(values@, index, row_id)].creator == old(index_btree).view()[entry_key(values@, index, row_id)].creator,
-//@   [C06:index.delete_touches_no_other_entry] only(final(index_btree).view(), old(index_btree).view(), entry_key(values@, index, row_id)),
-//@   [C06:index.delete_leaves_an_entry_it_may_not_see] !old(index_btree).view().contains_key(entry_key(values@, index, row_id)) || !snapshot.sees(old(index_btree).view()[entry_key(values@, index, row_id)]) ==> final(index_btree).view() == old(index_btree).view(),
+//@   [C06,C07,C03:index.delete_retires_the_entry_for_the_writer] r is Ok && retirable(snapshot, old(index_btree).view(), entry_key(values@, index)) ==> final(index_btree).view().contains_key(entry_key(values@, index)) && final(index_btree).view()[entry_key(values@, index)].deleter == Some(tid),
+//@   [C06:index.delete_keeps_the_creator] old(index_btree).view().contains_key(entry_key(values@, index)) ==> final(index_btree).view().contains_key(entry_key(values@, index)) && final(index_btree).view()[entry_key(values@, index)].creator == old(index_btree).view()[entry_key(values@, index)].creator,
+//@   [C06:index.delete_touches_no_other_entry] only(final(index_btree).view(), old(index_btree).view(), entry_key(values@, index)),
+//@   [C06:index.delete_leaves_an_entry_it_may_not_see] !old(index_btree).view().contains_key(entry_key(values@, index)) || !snapshot.sees(old(index_btree).view()[entry_key(values@, index)]) ==> final(index_btree).view() == old(index_btree).view(),
 //@end
 
 //@fn crates/axmos-db/src/runtime/dml.rs | impl DmlExecutor | maintain_secondary_indexes
 //@ arm /\(Some\(old_values\), Some\(new_values\), Some\(\w+\)\) => \{/ => fn index_update_arm(&self, old_values: &Vec<DataType>, new_values: &Vec<DataType>, assignments: &Assignments, index: &IndexHandle, index_schema: &Schema, index_root: PageId, row_id: RowId, tid: TransactionId, snapshot: &Snapshot, index_btree: &mut IndexTree) -> RuntimeResult<()>
 //@ arm-tail Ok(())
+//@ sub? /(\w+)\s*\.xmax\(\)\s*\.is_some_and\(\|(\w+)\|\s*([\w.]+\(\w+\))\)/ => (match \1.xmax() { Some(\2) => \3, None => false })
 //@ sub /index_btree\.with_cell_at\((\w+), \|bytes\| \{\s*tuple_reader\.parse_for_snapshot\(bytes, &snapshot\)\.ok\(\)\?\?;\s*let tuple = Tuple::from_slice_unchecked\(bytes\)\.ok\(\)\?;\s*Some\(tuple\)\s*\}\)/ => index_btree.visible_tuple_at(\1, &tuple_reader, &snapshot)
 //@ sub? /let mut index_btree = self\.ctx\.build_tree_mut\(index_root\);/ =>
 //@ requires
 //@   tid == self.ctx.writer(),
 //@   snapshot.me() == tid,
+//@   !snapshot.aborted().contains(tid),
 //@ ensures
-//@   [C06,C07:index.update_retires_the_entry_of_the_old_values] r is Ok && retirable(snapshot, old(index_btree).view(), entry_key(old_values@, index, row_id)) && entry_key(old_values@, index, row_id) != entry_key(new_values@, index, row_id) ==> final(index_btree).view().contains_key(entry_key(old_values@, index, row_id)) && final(index_btree).view()[entry_key(old_values@, index, row_id)].deleter == Some(tid),
-//@   [C06,C07:index.update_leaves_a_live_entry_under_the_new_values] r is Ok ==> final(index_btree).view().contains_key(entry_key(new_values@, index, row_id)) && final(index_btree).view()[entry_key(new_values@, index, row_id)].deleter is None,
-//@   [C06:index.update_touches_no_other_entry] only2(final(index_btree).view(), old(index_btree).view(), entry_key(old_values@, index, row_id), entry_key(new_values@, index, row_id)),
+//@   [C06,C07:index.update_retires_the_entry_of_the_old_values] r is Ok && retirable(snapshot, old(index_btree).view(), entry_key(old_values@, index)) && entry_key(old_values@, index) != entry_key(new_values@, index) ==> final(index_btree).view().contains_key(entry_key(old_values@, index)) && final(index_btree).view()[entry_key(old_values@, index)].deleter == Some(tid),
+//@   [C06,C07:index.update_leaves_a_live_entry_under_the_new_values] r is Ok ==> final(index_btree).view().contains_key(entry_key(new_values@, index)) && live(snapshot, final(index_btree).view()[entry_key(new_values@, index)]),
+//@   [C06:index.update_touches_no_other_entry] only2(final(index_btree).view(), old(index_btree).view(), entry_key(old_values@, index), entry_key(new_values@, index)),
 //@end
 }
 
